@@ -3,6 +3,7 @@
 package props
 
 import (
+	"strings"
 	"fmt"
 	"sync"
 	"testing"
@@ -217,7 +218,7 @@ func (s *scriptSource) Int63() int64 { return int64(s.Uint64() >> 1) }
 func (s *scriptSource) Seed(int64)   {}
 
 type c07Step struct {
-	K      string `json:"k"`       // est | del
+	K      string `json:"k"`       // est | del | modrej (removal of a CHOOSE PDR in a modification that is rejected) | modrem (accepted)
 	Mode   string `json:"mode"`    // fresh | zero | collide | const
 	R      int    `json:"r"`       // number of colliding draws before a fresh one
 	Choose int    `json:"choose"`  // number of CHOOSE F-TEID PDRs
@@ -236,6 +237,10 @@ func genC07Wire(t *rapid.T) c07Wire {
 	for i := 0; i < n; i++ {
 		if sess > 0 && rapid.IntRange(0, 4).Draw(t, "del?") == 0 {
 			c.Steps = append(c.Steps, c07Step{K: "del", Sess: rapid.IntRange(0, sess-1).Draw(t, "dsess")})
+			continue
+		}
+		if sess > 0 && rapid.IntRange(0, 3).Draw(t, "mod?") == 0 {
+			c.Steps = append(c.Steps, c07Step{K: rapid.SampledFrom([]string{"modrej", "modrej", "modrem"}).Draw(t, "modk"), Sess: rapid.IntRange(0, sess-1).Draw(t, "msess")})
 			continue
 		}
 		st := c07Step{K: "est", Sess: sess, Choose: rapid.IntRange(0, 3).Draw(t, "choose"),
@@ -268,13 +273,77 @@ func runC07Wire(c c07Wire, ev *Ev) error {
 	teids := map[uint32]int{}
 	env := bessEnv()
 	repeated := false
+	// held: the chosen TEIDs that live sessions hold right now; the generator's bookkeeping (hook) must agree
+	// with it after every step, whatever was rejected on the way
+	held := map[uint32]string{}
+	checkHeld := func(i int, what string) error {
+		for tv, owner := range held {
+			if ok, _ := r.A.Iface.VerifTEIDAllocated(tv); !ok {
+				return fmt.Errorf("step %d (%s): TEID %d is held by live %s but the agent considers it free - it can be handed to another session", i, what, tv, owner)
+			}
+		}
+		if _, n := r.A.Iface.VerifTEIDAllocated(0); n != len(held) {
+			return fmt.Errorf("step %d (%s): the agent counts %d allocated TEIDs, live sessions hold %d", i, what, n, len(held))
+		}
+		return nil
+	}
+	rejMods := 0
 	for i, st := range c.Steps {
 		if st.K == "del" {
 			if s := run.Sess[st.Sess]; s != nil && s.Live {
 				if o := run.Exec(model.Op{Kind: "del", Peer: 0, Seq: uint32(500 + i), Sess: st.Sess}); !o.Accepted {
 					return fmt.Errorf("step %d: deletion of live session %d rejected", i, st.Sess)
 				}
+				for tv, owner := range held {
+					if owner == fmt.Sprintf("session %d", st.Sess) || strings.HasPrefix(owner, fmt.Sprintf("session %d ", st.Sess)) {
+						delete(held, tv)
+					}
+				}
 			}
+			if err := checkHeld(i, "del"); err != nil {
+				return err
+			}
+			continue
+		}
+		if st.K == "modrej" || st.K == "modrem" {
+			s := run.Sess[st.Sess]
+			if s == nil || !s.Live {
+				continue
+			}
+			tv, has := s.ChosenTEID[10]
+			stillThere := false
+			for _, pd := range s.PDRs {
+				stillThere = stillThere || pd.ID == 10
+			}
+			if !has || !stillThere {
+				continue
+			}
+			op := model.Op{Kind: "mod", Peer: 0, Seq: uint32(700 + i), Sess: st.Sess, Note: "any", RemPDRs: []uint16{10}}
+			if st.K == "modrej" {
+				op.RemFARs = []uint32{77} // no such FAR: the whole modification must be refused
+			}
+			o := run.Exec(op)
+			if o.NoResp || !o.Alive {
+				return fmt.Errorf("step %d: modification not answered", i)
+			}
+			if st.K == "modrej" {
+				if o.Accepted {
+					return fmt.Errorf("step %d: a modification removing the unknown FAR 77 was accepted", i)
+				}
+				rejMods++
+			} else {
+				if !o.Accepted {
+					return fmt.Errorf("step %d: removal of PDR 10 rejected (cause %d)", i, o.Cause)
+				}
+				delete(held, tv)
+			}
+			if err := checkHeld(i, st.K); err != nil {
+				return err
+			}
+			if err := run.CheckBessImage(r.B.Snap(), env, sim.BessImageOpts{}); err != nil {
+				return fmt.Errorf("step %d (%s): %w", i, st.K, err)
+			}
+			ev.Label(st.K)
 			continue
 		}
 		var live []uint64
@@ -358,6 +427,7 @@ func runC07Wire(c c07Wire, ev *Ev) error {
 				return fmt.Errorf("step %d: TEID %d chosen for PDR %d was already chosen at step %d and never released", i, tv, id, prev)
 			}
 			teids[tv] = i
+			held[tv] = fmt.Sprintf("session %d PDR %d", st.Sess, id)
 			if s.ChosenN3[id] != accessIP() {
 				return fmt.Errorf("step %d: Created PDR %d carries address %s, want the access address %s", i, id, s.ChosenN3[id], accessIP())
 			}
@@ -366,15 +436,18 @@ func runC07Wire(c c07Wire, ev *Ev) error {
 		if err := run.CheckBessImage(r.B.Snap(), env, sim.BessImageOpts{}); err != nil {
 			return fmt.Errorf("step %d: reported identifiers differ from the programmed ones: %w", i, err)
 		}
+		if err := checkHeld(i, "est"); err != nil {
+			return err
+		}
 		ev.Label("accepted/" + st.Mode)
 	}
-	ev.Case(c, repeated || c.Cursor > 0xfffffff0, len(c.Steps))
+	ev.Case(c, repeated || c.Cursor > 0xfffffff0 || rejMods > 0, len(c.Steps))
 	return nil
 }
 
 func TestC07Wire(t *testing.T) {
 	ev := newEv("C07")
-	ev.Rule = "fresh agent per case; establishment histories with deletions where the association's random source is replaced (hook) by adversarial ones (constant, constant 0, zeros then fresh, 'collide with live SEIDs for r draws then fresh' with r around the retry limit 100) and the F-TEID cursor is placed near the 32-bit wrap; 0-3 CHOOSE F-TEIDs per session; the reported F-SEID/F-TEIDs must be those in the harness BESS tables; non-trivial = the source repeated a live SEID at least once or the cursor wrapped; distinct by case"
+	ev.Rule = "fresh agent per case; establishment histories with deletions where the association's random source is replaced (hook) by adversarial ones (constant, constant 0, zeros then fresh, 'collide with live SEIDs for r draws then fresh' with r around the retry limit 100) and the F-TEID cursor is placed near the 32-bit wrap; 0-3 CHOOSE F-TEIDs per session; modifications that remove a CHOOSE PDR and are accepted, or rejected because a later Remove IE names an unknown rule; the reported F-SEID/F-TEIDs must be those in the harness BESS tables and after every step the agent's set of allocated TEIDs (hook) must be exactly what live sessions hold; non-trivial = the source repeated a live SEID at least once, the cursor wrapped, or a modification was rejected; distinct by case"
 	runProp(t, ev, "wire", true, genC07Wire, runC07Wire)
 }
 
